@@ -4,16 +4,24 @@
 (* ZipSender (Design = "copy", StopPolicy = "drain", Creation =            *)
 (* "defaults": the repaired design).                                       *)
 (*                                                                         *)
-(* Events (harness/c16).  A record r is [id, time, clen, bytes]: bytes =   *)
-(* its encoding as the pack layer writes it.  st = the sender's private    *)
+(* Events (harness/c16).  A record r is [id, time, clen, bytes, ok]: bytes *)
+(* = its encoding as the pack layer writes it, ok = FALSE (and no bytes)   *)
+(* when the pack layer cannot encode it.  st = the sender's private        *)
 (* state read by the goroutine that owns the buffer, at the step:          *)
 (* blen (buffer.Len()), count, ft (first time), obs (settings in force),   *)
 (* qlen (only when no producer can be running).                            *)
 (*   Reset                          new history                            *)
-(*   New mode given s obs           creation; obs = settings found in force*)
+(*   New mode given s ctx obs       creation; ctx = what was passed as     *)
+(*                                  context; obs = settings found in force *)
 (*   Add r                          a producer is about to call Add(r)     *)
 (*   Refused id                     the queue's Failed callback ran for id *)
-(*   StopCall / StopRet             cancel() about to be called / returned *)
+(*   StopCall via / StopRet         the stop request (own / given cancel   *)
+(*                                  function, or the passed context's      *)
+(*                                  owner cancels) about to be made / made *)
+(*   Tick p                         the harness, having released the worker*)
+(*                                  into its timed wait, slept one more    *)
+(*                                  full period of p ms and the worker has *)
+(*                                  not reported since                     *)
 (*   Sync                           the harness holds the worker at its    *)
 (*                                  last reported step (nothing since)     *)
 (*   StopSeen/Poll st               the select took this branch            *)
@@ -30,6 +38,7 @@
 (*   Cleared st                     after the reset                        *)
 (*   Exit st                        the worker returns                     *)
 (*   DirectBegin rs / DirectEnd     SendDirect(rs) called / returned       *)
+(*   DirectPanic                    SendDirect(rs) panicked to its caller  *)
 (*   Peek i n status raw            pack number i, retained, read again    *)
 (*   ApplyConfig g obs              configuration naming the keys of g     *)
 (*   End npacks nrefused            end of the history                     *)
@@ -43,6 +52,8 @@
 (* stop state then, and the branch must be right for SOME stop state       *)
 (* between wsel and now.  The flush decision after an append is not an     *)
 (* event: a silent step tries both decisions and the next events tell.     *)
+(* The refusal of a record that cannot be encoded is not an event either   *)
+(* (no hook is reached): a silent step, and the next event must fit it.    *)
 (***************************************************************************)
 EXTENDS ZipSender, TraceLib
 
@@ -57,7 +68,7 @@ TraceInit == Init /\ l = 1 /\ HwmInit /\ wire = <<>> /\ wsel = "no"
 Ev == Trace[l]
 Step(e) == IsEv(l, e) /\ l' = l + 1
 
-Rec(x) == [id |-> x.id, time |-> x.time, clen |-> x.clen, bytes |-> x.bytes]
+Rec(x) == [id |-> x.id, time |-> x.time, clen |-> x.clen, bytes |-> x.bytes, ok |-> x.ok]
 RECURSIVE Recs(_)
 Recs(xs) == IF xs = <<>> THEN <<>> ELSE <<Rec(xs[1])>> \o Recs(Tail(xs))
 
@@ -74,7 +85,7 @@ W     == UNCHANGED wire /\ wsel' = stopped'     \* a worker event
 
 TraceReset ==
   /\ Step("Reset")
-  /\ mode' = "none" /\ settings' = Defaults /\ configured' = FALSE
+  /\ mode' = "none" /\ ctxk' = "none" /\ ticks' = 0 /\ settings' = Defaults /\ configured' = FALSE
   /\ queue' = <<>> /\ accB' = <<>> /\ refused' = {}
   /\ mem' = << <<>> >> /\ blen' = 0 /\ live' = <<>> /\ count' = 0 /\ firstTime' = 0
   /\ wpc' = "off" /\ wcur' = <<>> /\ wret' = "off"
@@ -82,13 +93,13 @@ TraceReset ==
   /\ emitted' = <<>> /\ stopped' = "no"
   /\ wire' = <<>> /\ wsel' = "no"
 
-TraceNew == /\ Step("New") /\ New(Ev.mode, Ev.given, Ev.s) /\ Ev.obs = settings' /\ Quiet
+TraceNew == /\ Step("New") /\ New(Ev.mode, Ev.given, Ev.s, Ev.ctx) /\ Ev.obs = settings' /\ Quiet
 
 TraceAdd == /\ Step("Add") /\ Add(Rec(Ev.r)) /\ Quiet
 
 TraceRefused == /\ Step("Refused") /\ Ev.id \in refused /\ UNCHANGED vars /\ Quiet
 
-TraceStopCall == Step("StopCall") /\ StopCall /\ Quiet
+TraceStopCall == Step("StopCall") /\ StopCall(Ev.via) /\ Quiet
 TraceStopRet  == Step("StopRet") /\ StopRet /\ Quiet
 TraceSync     == Step("Sync") /\ UNCHANGED vars /\ UNCHANGED wire /\ wsel' = stopped
 
@@ -100,6 +111,9 @@ TraceIdle == /\ Step("Idle") /\ WIdle /\ St(Ev) /\ W
 
 TraceAppendCall == Step("AppendCall") /\ AppendCall(Rec(Ev.r)) /\ Quiet
 TraceAppendRet  == Step("AppendRet") /\ wpc = "off" /\ UNCHANGED vars /\ Quiet
+
+\* a record that cannot be encoded is refused without an event
+TraceSkipBad == wpc = "app" /\ l <= NTrace /\ l' = l /\ WRefuse /\ Quiet
 
 TraceAppend ==
   /\ Step("Append") /\ wcur # <<>> /\ wcur[1].id = Ev.id
@@ -132,6 +146,10 @@ TraceExit    == Step("Exit") /\ WExit /\ St(Ev) /\ W
 
 TraceDirectBegin == Step("DirectBegin") /\ DirectBegin(Recs(Ev.rs)) /\ Quiet
 TraceDirectEnd   == Step("DirectEnd") /\ DirectEnd /\ Quiet
+TraceDirectPanic == Step("DirectPanic") /\ DirectAbort /\ Quiet
+
+\* the reference clock: refused when the worker's timed wait has outlasted the slack
+TraceTick == Step("Tick") /\ Tick(Ev.p) /\ Quiet
 
 \* a retained pack read again: what the client reads now is what it was handed
 TracePeek ==
@@ -160,7 +178,7 @@ TraceEnd ==
 \* buffer region holds the encodings of the records in it is a fact about the specification's own memory
 \* (model-checked), and every hand-over compares the real bytes with it.
 InvAll ==
-  /\ ExactlyOnceInOrder' /\ CountMatches' /\ ZipIff' /\ DefaultsInForce' /\ HandedOverIsImmutable'
+  /\ ExactlyOnceInOrder' /\ CountMatches' /\ ZipIff' /\ DefaultsInForce' /\ HandedOverIsImmutable' /\ IdleWaitBounded'
   /\ blen' = SumSize(live')
   /\ Len(emitted') > Len(emitted) => DecodablePack(emitted'[Len(emitted')])
 
@@ -168,7 +186,7 @@ TraceNext ==
   /\ \/ TraceReset \/ TraceNew \/ TraceAdd \/ TraceRefused \/ TraceStopCall \/ TraceStopRet \/ TraceSync
      \/ TracePoll \/ TraceStopSeen \/ TraceTake \/ TraceIdle \/ TraceAppendCall \/ TraceAppendRet \/ TraceAppend
      \/ TraceSend \/ TraceCleared \/ TraceExit \/ TraceDirectBegin \/ TraceDirectEnd \/ TracePeek
-     \/ TraceApplyConfig \/ TraceEnd \/ TraceDecide
+     \/ TraceApplyConfig \/ TraceEnd \/ TraceDecide \/ TraceSkipBad \/ TraceDirectPanic \/ TraceTick
   /\ InvAll
   /\ FlushWhenDueStep
 
